@@ -196,6 +196,7 @@ def run(ctx):
         "tables_never_restored": (summary or {}).get("never_restored"),
         "restorer_record_types": (summary or {}).get("restorer_types"), "fsm_command_types": (summary or {}).get("command_types"),
         "projected_fields": (summary or {}).get("projected_fields"),
+        "peering_secret_combinations_at_cuts": (summary or {}).get("peering_secret_combinations_at_cuts"),
         "history_length_histogram": {str(k): v for k, v in sorted(lens.items())},
         "malformed_commands": sum(v for k, v in kinds.items() if k.startswith("malformed")),
         "refutation_witness_replayed_on_implementation": witness_ok,
